@@ -2,6 +2,7 @@
 
 from vf import evalhelp as H
 from vf import evaluators as E
+from vf import sched
 from vf.gen import expr as G
 from vf.monitors import capture, describe
 from vf.ref import logic
@@ -42,6 +43,16 @@ async def check_expression(ctx, case):
         ctx.evaluation()
         wcase = dict(case, assignments=[fa])
         expected = logic.ast_bool(ast, fa)
+        # the Boolean value does not depend on messages at all: unfulfilled constraints WITHOUT a message are legitimate input
+        # (dictionary / content-evaluation-result based evaluators pass None through); only the message clause has the proviso
+        bare = capture(evaluate_format_constraint_tree, tree, {k: EvaluatedFormatConstraint(format_constraint_fulfilled=v, error_message=None) for k, v in fa.items()})
+        ctx.count("evaluations_without_messages")
+        if bare[0] != "ok":
+            ctx.violation(f"fc-evaluation-raises-{type(bare[1]).__name__}", f"evaluate_format_constraint_tree({s!r}, {fa}, no messages) {describe(bare)[:200]}", case=wcase)
+            return
+        if bare[1].format_constraint_fulfilled is not expected:
+            ctx.violation("boolean-value", f"{s!r} under {fa} with message-less constraints: evaluate_format_constraint_tree gives {bare[1].format_constraint_fulfilled!r}, Boolean value is {expected}", case=wcase)
+            return
         ev = capture(evaluate_format_constraint_tree, tree, fresh_table(fa, rng.choice(["plain", "unicode", "quotes"])))
         if ev[0] != "ok":
             ctx.violation(f"fc-evaluation-raises-{type(ev[1]).__name__}", f"evaluate_format_constraint_tree({s!r}, {fa}) {describe(ev)[:200]}", case=wcase)
@@ -61,7 +72,10 @@ async def check_expression(ctx, case):
         wcase = dict(case, assignments=[fa])
         explicit = rng.random() < 0.5
         world = E.World("c08", fc=dict(fa), fc_msg={k: f"E{k}" for k in fa} if explicit else None)
-        aout = await H.async_format(s, world, text="some text")
+        scheduler = sched.Sched(sched.RandomChooser(rng)) if rng.random() < 0.6 else None
+        if scheduler is not None:
+            ctx.count("async_evaluations_under_random_completion_order")
+        aout = await H.async_format(s, world, text="some text", scheduler=scheduler)
         if aout[0] != "ok":
             ctx.violation(f"fc-evaluation-raises-{type(aout[1]).__name__}", f"format_constraint_evaluation({s!r}) under {fa} {describe(aout)[:200]}", case=wcase)
             continue
